@@ -15,6 +15,7 @@
 package main
 
 import (
+	"bytes"
 	"encoding/json"
 	"flag"
 	"fmt"
@@ -328,6 +329,7 @@ type merged struct {
 	Summary
 	sigs, ssigs map[uint64]struct{}
 	states      map[string]struct{}
+	crashes     int // worker processes killed by the run they were executing (confirmed by lone re-execution)
 }
 
 func (m *merged) add(s *Summary) {
@@ -426,6 +428,18 @@ func explore(bin, scratch string, sp *spec, prop, tier, mode string, seed uint64
 				job := &Job{Mode: mode, Harness: sp.Harness, Property: prop, Tier: tier, Seed: seed, First: k * chunk, Stride: 1, Count: cnt,
 					Out: filepath.Join(scratch, fmt.Sprintf("out-%s-%d.json", mode, k)), ReplayDir: filepath.Join(scratch, "replays"), MaxFail: 2, Recheck: recheck}
 				s, err := runWorker(bin, job, scratch, timeout)
+				if err != nil && strings.HasPrefix(err.Error(), "worker failed") {
+					// the worker process died: is it the code under test that
+					// kills the process in the run the breadcrumb names?
+					if cr := crashReplay(bin, scratch, sp, job, err); cr != nil {
+						mu.Lock()
+						m.Failures = append(m.Failures, *cr)
+						m.crashes++
+						stop = true
+						mu.Unlock()
+						return
+					}
+				}
 				mu.Lock()
 				if err != nil {
 					if firstErr == nil {
@@ -456,9 +470,59 @@ func explore(bin, scratch string, sp *spec, prop, tier, mode string, seed uint64
 		}(w)
 	}
 	wg.Wait()
-	if firstErr != nil {
+	if firstErr != nil && m.crashes == 0 {
 		die2("%v", firstErr)
 	}
+}
+
+// crashReplay: a worker died. The breadcrumb says which run it was in; that
+// run is written out as a replay file (scenario + run seed, the choices follow
+// from the seed) and executed alone in two fresh processes. If both die as
+// well, the crash belongs to that run: a fatal runtime error that no recover
+// can catch (e.g. an impossible allocation) is reported like a panic. If the
+// lone run survives, the death was something else and stays a machinery error.
+func crashReplay(bin, scratch string, sp *spec, job *Job, werr error) *FailureRec {
+	b, err := os.ReadFile(job.Out + ".cur")
+	if err != nil {
+		return nil
+	}
+	var bc struct {
+		Property string          `json:"property"`
+		Tier     string          `json:"tier"`
+		RunIndex int             `json:"run_index"`
+		RunSeed  uint64          `json:"run_seed"`
+		Scenario json.RawMessage `json:"scenario"`
+		Harness  string          `json:"harness"`
+	}
+	if json.Unmarshal(b, &bc) != nil {
+		return nil
+	}
+	msg := "the process running this scenario died (fatal runtime error, not a recoverable panic): " + firstLine(lastFatal(werr.Error()))
+	rp := map[string]any{"harness": bc.Harness, "property": bc.Property, "oracle": "process-crash", "message": msg, "tier": bc.Tier, "seed": job.Seed,
+		"run_index": bc.RunIndex, "run_seed": bc.RunSeed, "scenario": bc.Scenario, "crash": true}
+	dir := filepath.Join(scratch, "replays")
+	os.MkdirAll(dir, 0o755)
+	path := filepath.Join(dir, fmt.Sprintf("%s-process-crash-seed%d-run%d.json", bc.Property, job.Seed, bc.RunIndex))
+	jb, _ := json.MarshalIndent(rp, "", " ")
+	if os.WriteFile(path, jb, 0o644) != nil {
+		return nil
+	}
+	for k := 0; k < 2; k++ {
+		rj := &Job{Mode: "replay", Harness: sp.Harness, Property: bc.Property, Tier: bc.Tier, ReplayIn: path, Out: filepath.Join(scratch, fmt.Sprintf("crash-check-%d-%d.json", bc.RunIndex, k))}
+		if _, err := runWorker(bin, rj, scratch, 10*time.Minute); err == nil || !strings.HasPrefix(err.Error(), "worker failed") {
+			return nil // the lone run does not die: not attributable
+		}
+	}
+	return &FailureRec{Property: bc.Property, Oracle: "process-crash", Msg: msg, Replay: path, RunIndex: bc.RunIndex}
+}
+
+func lastFatal(out string) string {
+	for _, l := range strings.Split(out, "\n") {
+		if strings.HasPrefix(l, "fatal error:") || strings.HasPrefix(l, "runtime:") || strings.HasPrefix(l, "panic:") {
+			return l
+		}
+	}
+	return out
 }
 
 func loadKnown() []knownFinding {
@@ -546,6 +610,12 @@ func main() {
 		job := &Job{Mode: "replay", Harness: sp.Harness, Property: prop, Tier: *tier, ReplayIn: abs, Out: filepath.Join(scratch, "replay-out.json")}
 		s, err := runWorker(bin, job, scratch, 10*time.Minute)
 		if err != nil {
+			if rb, _ := os.ReadFile(abs); bytes.Contains(rb, []byte(`"oracle": "process-crash"`)) && strings.HasPrefix(err.Error(), "worker failed") {
+				fmt.Printf("reproduced %s/process-crash: the process executing the scenario died: %s\n", prop, firstLine(lastFatal(err.Error())))
+				fmt.Printf("VIOLATION property=%s replay=%s\n", prop, abs)
+				cleanup()
+				os.Exit(1)
+			}
 			cleanup()
 			die2("%v", err)
 		}
@@ -635,6 +705,14 @@ func main() {
 		}
 		job := &Job{Mode: "replay", Harness: sp.Harness, Property: prop, Tier: *tier, ReplayIn: withReplay.Replay, Out: filepath.Join(scratch, "replay-check.json")}
 		s, err := runWorker(bin, job, scratch, 10*time.Minute)
+		if withReplay.Oracle == "process-crash" {
+			// verified already (twice) by lone re-execution; a third death is expected here
+			if err == nil {
+				cleanup()
+				die2("the process-crash replay %s did not kill the process this time", withReplay.Replay)
+			}
+			s, err = &Summary{ReplayOK: true}, nil
+		}
 		if err != nil {
 			cleanup()
 			die2("replay of %s: %v", withReplay.Replay, err)
